@@ -42,7 +42,7 @@ func runC08(c *kit.Ctx) {
 		if !strings.HasPrefix(a.Kind, "container-") {
 			continue
 		}
-		c.Check(enclosingNamed(a.Fn) == put || a.Fn == del, a.Fn, a.Kind, posOf(a.Instr), "tree mutation in put/del", "the region tree is mutated outside keyRegionCache.put/del: the eviction rules do not apply to that change")
+		c.Check(enclosingNamed(a.Fn) == put || enclosingNamed(a.Fn) == del, a.Fn, a.Kind, posOf(a.Instr), "tree mutation in put/del", "the region tree is mutated outside keyRegionCache.put/del: the eviction rules do not apply to that change")
 	}
 
 	// the overlap search and the insertion form one critical section
@@ -154,8 +154,9 @@ func runC08(c *kit.Ctx) {
 				if !ok || cmp.Bytes || cmp.Op != token.GTR {
 					return
 				}
-				a, ok1 := cmp.X.(*ssa.Call)
-				b, ok2 := cmp.Y.(*ssa.Call)
+				// (either side may have been read into a local beforehand: regID := reg.ID())
+				a, ok1 := kit.Root(cmp.X).(*ssa.Call)
+				b, ok2 := kit.Root(cmp.Y).(*ssa.Call)
 				if !ok1 || !ok2 || kit.CalleeName(a) != hrpcRI+"ID" || kit.CalleeName(b) != hrpcRI+"ID" {
 					return
 				}
@@ -354,6 +355,8 @@ func discoverersDetachOverlaps(c *kit.Ctx) {
 func overlapSearch(c *kit.Ctx) {
 	p := c.P
 	_ = p
+	compareIsFieldWise(c)
+	searchKeyKeepsTheWholeKey(c)
 	iro := p.Func("", "", "isRegionOverlap")
 	getOv := p.Func("", "keyRegionCache", "getOverlaps")
 	if iro == nil || getOv == nil {
